@@ -66,7 +66,11 @@ func startDaemon(o daemonOpts) (*daemon, error) {
 	if o.race {
 		bin = "audito-maldito-race"
 	}
-	d.cmd = exec.Command(filepath.Join(vlib.VerifDir, "build", bin),
+	binPath := filepath.Join(vlib.VerifDir, "build", bin)
+	if dbg := os.Getenv("VERIF_DEBUG_DAEMON_BIN"); dbg != "" {
+		binPath = dbg
+	}
+	d.cmd = exec.Command(binPath,
 		"-sshd-pipe-path", d.sshdPath, "-auditd-pipe-path", d.auditPath, "-app-events-output", d.outPath, "-log-level", "error")
 	d.cmd.Env = append(os.Environ(), "NODE_NAME="+vNode, "GOTRACEBACK=all",
 		"GORACE=halt_on_error=0 exitcode=0 atexit_sleep_ms=0 log_path="+filepath.Join(dir, "race"))
@@ -232,6 +236,7 @@ type dScenario struct {
 	UncorrTS   map[int64]string // timestamps of events that must never be emitted
 	FailLogins int              // failure sshd lines mixed in (each yields one failed UserLogin)
 	LargestEv  int
+	Phased     bool // all audit records first (barrier), then all sshd lines
 }
 
 func loginLine(s *dSession) string {
@@ -311,7 +316,7 @@ func genDaemonScenario(r *vlib.Rng, nsess int, bigEvents bool, uncorrelated bool
 			if len(q) > 0 {
 				// close to the LOGIN record: just before, right at it, or a few lines later
 				recPos := len(s.PreTS)
-				pos = recPos + vlib.PickOne(r, []int{0, 0, 1, 1, 2, 4})
+				pos = recPos + vlib.PickOne(r, []int{0, 0, 1, 1, 2, 4, 8, len(q)})
 				if pos > len(q) {
 					pos = len(q)
 				}
@@ -436,19 +441,50 @@ func playScenario(d *daemon, sc *dScenario, ws, wa *os.File) (overlaps int64) {
 // markerBarrier proves that every earlier line on both pipes has been fully
 // processed (see DESIGN.md 2.1).
 func markerBarrier(d *daemon, ws, wa *os.File, watchdog time.Duration) bool {
-	m := &dSession{K: 999999, Pid: 999999, Sid: "999999", User: "marker", KeyID: "marker@verif", Addr: "203.0.113.9", Port: "9"}
+	return markerBarrierN(d, ws, wa, watchdog, 0)
+}
+
+// markerBarrierN is the barrier with marker identity number n (several
+// barriers can be used in one run).
+func markerBarrierN(d *daemon, ws, wa *os.File, watchdog time.Duration, n int) bool {
+	base := 999999 - 3*n
+	m := &dSession{K: base, Pid: base, Sid: strconv.Itoa(base), User: "marker" + strconv.Itoa(n), KeyID: "marker@verif", Addr: "203.0.113.9", Port: "9"}
 	io.WriteString(ws, loginLine(m))
-	m2 := &dSession{K: 999998, Pid: 999998, User: "marker2", KeyID: "marker2@verif", Addr: "203.0.113.9", Port: "9"}
-	m3 := &dSession{K: 999997, Pid: 999997, User: "marker3", KeyID: "marker3@verif", Addr: "203.0.113.9", Port: "9"}
+	m2 := &dSession{K: base - 1, Pid: base - 1, User: "markerB" + strconv.Itoa(n), KeyID: "marker2@verif", Addr: "203.0.113.9", Port: "9"}
+	m3 := &dSession{K: base - 2, Pid: base - 2, User: "markerC" + strconv.Itoa(n), KeyID: "marker3@verif", Addr: "203.0.113.9", Port: "9"}
 	io.WriteString(ws, loginLine(m2))
 	io.WriteString(ws, loginLine(m3))
-	if !d.waitForOutput(func(b []byte) bool { return bytes.Contains(b, []byte(`"loggedAs":"marker3"`)) }, watchdog) {
+	if !d.waitForOutput(func(b []byte) bool { return bytes.Contains(b, []byte(`"loggedAs":"markerC`+strconv.Itoa(n)+`"`)) }, watchdog) {
 		return false
 	}
-	io.WriteString(wa, vlib.AuLogin(vlib.BaseTSms+9000000, 4000000, "999999", "999999")+"\n")
+	io.WriteString(wa, vlib.AuLogin(vlib.BaseTSms+9000000+int64(n), uint32(4000000+n), strconv.Itoa(base), strconv.Itoa(base))+"\n")
 	return d.waitForOutput(func(b []byte) bool {
-		return bytes.Contains(b, []byte(`"auditId":"999999"`))
+		return bytes.Contains(b, []byte(`"auditId":"`+strconv.Itoa(base)+`"`))
 	}, watchdog)
+}
+
+// playPhased writes every audit item first, proves with a barrier that the
+// daemon has processed them all, and only then writes the sshd items: every
+// login then arrives at a session that is already holding events.
+func playPhased(d *daemon, sc *dScenario, ws, wa *os.File) bool {
+	for _, it := range sc.Items {
+		if it.Pipe == "a" {
+			if _, err := io.WriteString(wa, it.Data); err != nil {
+				return false
+			}
+		}
+	}
+	if !markerBarrierN(d, ws, wa, 90*time.Second, 1) {
+		return false
+	}
+	for _, it := range sc.Items {
+		if it.Pipe == "s" {
+			if _, err := io.WriteString(ws, it.Data); err != nil {
+				return false
+			}
+		}
+	}
+	return true
 }
 
 // parsedOutput is the events file decoded line by line.
